@@ -285,10 +285,15 @@ def gen_ops(rng, n, mutable_bags):
     for _ in range(n):
         c = rng.randrange(34)
         if c >= 30:
-            ops.append(("defer", pick(["style_new", "style_new", "style_new", "swap", "style_none", "pset", "pset",
-                                       "pset", "pset2", "dset", "dset2", "pdel", "pdel2", "style_color",
-                                       "style_width"]),
-                        pick(["blue", "green", "", 5, None]), rng.randint(0, 9)))
+            # removing the delegate while a local override exists (a dangling override) is the
+            # pattern of an open finding: only the hazard stratum does it
+            what = pick(["style_new", "style_new", "style_new", "swap", "style_none", "pset", "pset",
+                         "pset", "pset2", "dset", "dset2", "pdel", "pdel2", "style_color", "style_width"])
+            if what == "style_none" and not mutable_bags:
+                what = "style_none_safe"
+            elif mutable_bags and rng.random() < 0.04:
+                what = "dangle"
+            ops.append(("defer", what, pick(["blue", "green", "", 5, None]), rng.randint(0, 9)))
         elif c < 3:
             nm = pick(OBJ_SCALARS)
             ops.append(("set", nm, pick(SCALAR_VALUES[nm])))
@@ -533,7 +538,15 @@ def apply_op(o, op):
         elif what == "swap":
             o.style = Style(color="c%d" % w, width=w)
         elif what == "style_none":
-            if w < 3:
+            if w < 5:
+                o.style = None
+        elif what == "dangle":
+            if o.style is None:
+                o.style = Style()
+            o.pcolor2 = "kept"
+            o.style = None
+        elif what == "style_none_safe":
+            if w < 5 and "pcolor" not in o.__dict__ and "pcolor2" not in o.__dict__:
                 o.style = None
         elif what == "pset":
             o.pcolor = col
@@ -1369,6 +1382,7 @@ def check_copy(ctx, rng, mode, mclass, fn, O, feat, fresh):
     try:
         C = fn(O)
     except Exception as e:  # noqa: BLE001
+        ctx.sig("copy-raised", mclass, type(e).__name__)
         ctx.violation("obj/%s/copy-raised/%s" % (mclass, type(e).__name__),
                       "%s of a reachable state raised %s: %s" % (mode, type(e).__name__, short(e, 300)),
                       {"mode": mode})
@@ -1385,6 +1399,13 @@ def check_copy(ctx, rng, mode, mclass, fn, O, feat, fresh):
     ctx.count("values_compared", max(1, len(memo)) * len(OBJ_PERSISTENT))
     if r:
         trait = r[0].split(".")[1].split("[")[0] if "." in r[0] else "?"
+        if r[0].count(".") == 1 and trait in OBJ_DEFER and O.style is None and trait in O.__dict__:
+            # a local override whose delegate is gone: one mechanism for every clone mode
+            ctx.violation("obj/clone/dangling-override-lost",
+                          "%s: %s is overridden locally in the original (reads %s) while its delegate is None; "
+                          "the copy lost the override: %s" % (mode, trait, short(read(O, trait), 40), r[1]),
+                          {"mode": mode, "trait": trait})
+            return C, True
         ctx.violation("obj/%s/value-differs/%s" % (mclass, trait),
                       "%s: %s differs between original and copy: %s" % (mode, r[0], r[1]),
                       {"mode": mode, "path": r[0], "detail": r[1]})
@@ -1607,7 +1628,7 @@ def calibrate():
 
 def run_objects(ctx):
     calibrate()
-    nh = ctx.scale(1000, 20000)
+    nh = ctx.scale(800, 20000)
     for h in range(nh):
         if not ctx.mine(h):
             continue
